@@ -47,7 +47,8 @@ def healthy(seed, quick):
                     nb = cap(csd)
                     ops = standard_ops(nb, rng)
                     ops += [O('mark_uninit'), O('read', blk=1, n=1), O('mark_uninit'), O('card_type'), O('write', blk=2, n=2), O('read', blk=2, n=2)]
-                    S.append(dict(id='H%d-%s-%s' % (k, kind, 'crc' if crc else 'nocrc'), kind=kind, crc=crc, csd=csd, timing=t, seed=seed * 1000 + k, ops=ops))
+                    # (every other one with a logger at trace level installed: the arguments of the driver's log statements are evaluated)
+                    S.append(dict(id='H%d-%s-%s' % (k, kind, 'crc' if crc else 'nocrc'), kind=kind, crc=crc, csd=csd, timing=t, seed=seed * 1000 + k, ops=ops, log=(k % 2 == 0)))
     # a card that reports OUT_OF_RANGE in the stop-transmission response when its read-ahead ran past the last block (legal):
     # multi-block reads that end exactly on the last block of the card
     for kind in KINDS:
@@ -118,6 +119,12 @@ def misbehaving(seed, quick):
                     for what in ('silent', 'r1err'):
                         add('retry%d-%s%d' % (retries, what, nfail), kind, crc, [dict(when='cmd0', nth=k, what=what) for k in range(1, nfail + 1)],
                             [O('read', blk=1, n=1)], pre=[], extra=dict(retries=retries))
+            # one driver object, many initialisations: every one of them finds a card that ignores the first reset (within the
+            # retry budget each time - the budget belongs to the initialisation, not to the object)
+            for what in ('silent', 'r1err'):
+                add('reinit-' + what, kind, crc, [dict(when='cmd0', nth=k, what=what) for k in (1, 3, 5, 7, 9)],
+                    [O('read', blk=1, n=1), O('mark_uninit'), O('read', blk=1, n=1), O('mark_uninit'), O('write', blk=1, n=1), O('mark_uninit'), O('read', blk=1, n=2),
+                     O('mark_uninit'), O('num_blocks')], pre=[], extra=dict(retries=2))
             # a card that ALWAYS answers one command with "illegal command" / an error (an MMC-like card, a card without ACMD23, ...)
             for cmd, tgt in [('acmd41', [O('read', blk=1, n=1)]), ('cmd55', [O('read', blk=1, n=1)]), ('cmd8', [O('read', blk=1, n=1)]), ('cmd58', [O('read', blk=1, n=1)]),
                              ('cmd0', [O('read', blk=1, n=1)])]:
